@@ -112,6 +112,11 @@ def run(tier, seed):
     rows.append(run_case(R("query response table"), lambda e: e.get("ev") == "Schemas" and e.get("part") == "contract" and len(e.get("rows", [])) >= 2,
                          drop_row, "contract_table_is_the_union_of_its_parts_tables"))
 
+    def other_members(e):
+        e["anyof_same"] = False
+    rows.append(run_case(R("members of the contract-level any-of"), lambda e: e.get("ev") == "Schemas" and e.get("part") == "contract" and e.get("anyof_same") is True,
+                         other_members, "contract_schema_is_the_any_of_of_its_parts"))
+
     # ---- multitest group (C12)
     p = routing.pipeline("quick", seed, mt=True)
     env = {"VERIF_PROGS": p["progs_path"]}
@@ -123,6 +128,12 @@ def run(tier, seed):
     M.name = "proxy chain state"
     rows.append(run_case(M, lambda e: e.get("step", 0) >= 1 and e["op"]["op"] == "instantiate" and e["proxy"]["res"].get("ok"), bump_count,
                          "proxy_call_and_raw_json_leave_the_two_chains_in_the_same_state"))
+
+    def handler_skipped(e):
+        e["ran"]["proxy"] = 0
+    M2 = Case("multitest", "handler invocations of a repeated query", "Trace_Multitest", "Trace_Multitest.cfg", env, mevs, lambda e: e.get("step") == 0, "next")
+    rows.append(run_case(M2, lambda e: e.get("step", 0) >= 2 and e["op"]["op"] == "query" and e.get("ran", {}).get("proxy") == 1, handler_skipped,
+                         "proxy_call_runs_the_handler_as_often_as_the_raw_json"))
 
     # ---- reply group (C07-C09, C14)
     rp = replies.pipeline("quick", seed)
